@@ -35,8 +35,9 @@ def table_facts(H, repo, f, eng):
     link = _idx(b, "tst.fileSystem.CreateHardLink(srcPath, destPartPath, nil)", "TakeFileSnapshot", rel)
     meta = _idx(b, "tst.createMetadata(dst, snapshot)", "TakeFileSnapshot", rel)
     f[eng + "PinThenDeferUnpinBeforeLinks"] = pin < unpin < loop < link
+    # (an unlock of the publication mutex may precede the return: repaired trace procedure)
     f[eng + "NilSnapshotReturnsErrNoCurrentSnapshot"] = re.search(
-        r"if snapshot == nil \{\s*return false, storage\.ErrNoCurrentSnapshot\s*\}", b) is not None
+        r"if snapshot == nil \{\s*(?:tst\.snapshotPublicationMu\.R?Unlock\(\)\s*)?return false, storage\.ErrNoCurrentSnapshot\s*\}", b) is not None
     f[eng + "ErrorRemovesDst"] = re.search(
         r"defer func\(\) \{\s*if err != nil \{\s*tst\.fileSystem\.MustRMAll\(dst\)\s*\}\s*\}\(\)", b) is not None
     f[eng + "LoopSkipsMemParts"] = re.search(
